@@ -16,7 +16,7 @@ SPEC = {
     "design_ref": "DESIGN.md section 5, C03",
     "rule": ("cases = (shape of W-DAG) x (every positive flow that is a superposition of <=R source-sink paths with weights 1..W); inside: "
              "weight_type in {int,float} x option sets {default, greedy off, safe paths as subpath constraints (greedy off), min-gen-set bound (+partition constraints), guessed weights, "
-             "lowerbound_k=1, subgraph scanning with the window shrunk to 3 and 2 nodes (quick: every third flow of the 5-node shapes)}, every single ignored arc (3 value treatments), every "
+             "lowerbound_k=1, subgraph scanning with the window shrunk to 3 and 2 nodes (quick: every third flow of the 5-node shapes)}; per shape the window helper on every arc insertion order x every window, every single ignored arc (3 value treatments), every "
              "contiguous 2-3 arc sub-path and non-contiguous arc pair as a constraint, node-weighted twins; non-trivial = distinct "
              "(shape, flow, variant) solved with >= 2 paths and compared with the brute-force minimum"),
     "assumptions": ["weights are non-negative; a path chosen only to satisfy a constraint may carry weight 0",
@@ -59,9 +59,9 @@ def cases(tier, seed):
             flows = fdworld.fd_flows(pa, arcs, 3, 2)
         else:
             flows = fdworld.fd_flows(pa, arcs, 2, 3)
-        for fv in sorted(flows):
+        for fi, fv in enumerate(sorted(flows)):
             heavy = (n <= 4) or (sum(fv) % 3 == 0)
-            yield {"nodes": names, "arcs": [[u, v, w] for (u, v), w in zip(arcs, fv)], "full": bool(heavy),
+            yield {"nodes": names, "arcs": [[u, v, w] for (u, v), w in zip(arcs, fv)], "full": bool(heavy), "scan_helper": fi == 0 and len(arcs) <= 6,
                    "scan": n == 5 and ((not q) or bool(heavy))}
 
 
@@ -135,6 +135,37 @@ def run(case):
                 gm = getattr(obs["model"], "_given_weights_model", None)
                 if gm is not None and getattr(obs["model"], "fd_model", None) is gm:
                     tags["route:given_weights_model_used"] += 1
+    if case.get("scan_helper"):
+        # the window helper behind the subgraph-scanning bound, on EVERY insertion order of the arcs (node order follows) and every window
+        # [left, right) of every topological order networkx derives: it must return exactly the window's nodes, the arcs with an end in the
+        # window, and the far ends of those arcs - a window that swallows more cuts real paths in pieces and over-estimates the bound
+        import networkx as nx
+        import flowpaths.utils.graphutils as gu
+        bad = None
+        for perm in itertools.permutations(range(len(E))):
+            H = nx.DiGraph()
+            for i in perm:
+                H.add_edge(*E[i], flow=f[E[i]])
+            topo = list(nx.topological_sort(H))
+            for left in range(len(topo)):
+                for right in range(left, len(topo)):
+                    sub = gu.get_subgraph_between_topological_nodes(H, topo, left, right)
+                    win = set(topo[left:right])
+                    exp_e = {e for e in E if e[0] in win or e[1] in win}
+                    exp_v = win | {x for e in exp_e for x in e}
+                    tags["scan_windows"] += 1
+                    if set(sub.edges()) != exp_e or set(sub.nodes()) != exp_v:
+                        bad = (perm, topo, left, right, sorted(sub.edges()), sorted(exp_e))
+                        break
+                if bad:
+                    break
+            if bad:
+                break
+        if bad:
+            viol.append({"kind": "scan_window_wrong", "msg": f"get_subgraph_between_topological_nodes on arcs inserted as {[E[i] for i in bad[0]]}, order {bad[1]}, window [{bad[2]},{bad[3]}): "
+                                                            f"arcs {bad[4]}, expected exactly the arcs with an end in the window {bad[5]}"})
+        else:
+            nt.append(key + "|scan_windows")
     if case.get("scan"):
         old = (fp.MinFlowDecomp.subgraph_lowerbound_size, fp.MinFlowDecomp.subgraph_lowerbound_shift)
         for win in ((3, 2), (2, 1)):
